@@ -362,7 +362,15 @@ pub fn read_all_sched<R: std::io::Read>(r: &mut R, sched: &[usize], cap: usize) 
             match r.read(&mut buf[..n]) {
                 Ok(g) => break g,
                 Err(e) if e.kind() == std::io::ErrorKind::Interrupted => continue,
-                Err(e) => return Err(e),
+                Err(e) => {
+                    // a caller may call again after an error: those calls must return as well (whatever they
+                    // return); a panic here reaches the caller's catch_unwind, a hang the watchdog
+                    for _ in 0..2 {
+                        let mut extra = [0u8; 13];
+                        let _ = r.read(&mut extra);
+                    }
+                    return Err(e);
+                }
             }
         };
         if n == 0 {
